@@ -61,7 +61,7 @@ def run(ctx):
             ts.append(P.two_runs(fam, strict, loose, items, rng.randrange(10 ** 6), "FirstDriftNotLater", extra={"par": par}))
     # CUSUM with a known target: the sums accumulate during burn-in, so a shift that begins inside the burn-in window
     # lets the loose threshold be crossed before the first admissible alarm while the strict one is crossed later
-    for i in range(6 if q else 40):
+    for i in range(40 if q else 200):
         bi = rng.choice([10, 20, 30])
         p = dict(target=0.0, sd_hat=1.0, burn_in=bi, delta=rng.choice([0.005, 0.05]), direction=rng.choice([None, "positive"]))
         lo, hi = sorted(rng.sample([2.0, 4.0, 6.0, 10.0, 15.0], 2))
